@@ -107,6 +107,22 @@ func tryTable(decLines []string, data []byte, first int) bool {
 	if t.runaway {
 		bad = true
 	}
+	// SkipDecodeRecovery: a panicking decoder does not freeze the lazy packet; later accessor calls go on
+	// from whatever continuation it left behind
+	t.resetCounters()
+	p := gopacket.NewPacket(data, t.decoder(first), gopacket.DecodeOptions{Lazy: true, SkipDecodeRecovery: true})
+	for i := 0; i < 64; i++ {
+		panicked, _ := protect(func() { p.Layers() })
+		if !panicked || t.runaway {
+			break
+		}
+		if i == 63 {
+			bad = true
+		}
+	}
+	if t.runaway {
+		bad = true
+	}
 	return !bad
 }
 
